@@ -66,7 +66,7 @@ PROPS = {
                 gens=[(["race_ok"], "drain", 0.5), (["race_ok"], "exh", 1.0), (["race_ok"], "random", 1.0), (["race_ok"], "errs", 0.8), (["race_ok"], "stuck", 0.2),
                       (["race_ok"], "panic", 0.2), (["race_ok"], "big", 0.08), (["race_ok"], "waves", 0.2)],
                 assumptions=COMMON_ASSUME),
-    "C19": dict(monitors=["C19", "NP", "LV"], monitor="C19", modules=["C19", "C01seq"], proj="FUN", cfgs=ALL3, quick=1500, thorough=20000,
+    "C19": dict(ktie=["Wait"], monitors=["C19", "NP", "LV"], monitor="C19", modules=["C19", "C01seq"], proj="FUN", cfgs=ALL3, quick=1500, thorough=20000,
                 gens=[(["wait_f", "wait_s"], "drain", 0.5), (["wait_f", "wait_s"], "random", 1.0), (["wait_f", "wait_s"], "stuck", 0.3),
                       (["wait_f", "wait_s"], "panic", 0.2)],
                 assumptions=COMMON_ASSUME + ["child scripts have the kind of their child (Case.kindOk): a future only "
